@@ -53,10 +53,8 @@ def space(tier):
         p2, skipped = G.paths(2, exact=True)
         sub = [e for e in ERRORS if e[0] in QUICK_DEPTH2]
         return [(p, ERRORS) for p in p1] + [(p, sub) for p in p2], skipped, "depth 1 x 18 errors, depth 2 x 5 errors (one per category: operator, arity, argument type, undefined name, missing attribute)"
-    base = [e for e in ERRORS if e[1] == "base"]
-    p2, _ = G.paths(2)
-    p3, skipped = G.paths(3, exact=True)
-    return [(p, ERRORS) for p in p2] + [(p, base) for p in p3], skipped, "depth<=2 x 18 errors, depth 3 x the 9 base errors"
+    p3, skipped = G.paths(3)
+    return [(p, ERRORS) for p in p3], skipped, "depth<=3 x 18 errors"
 
 
 # constructors that put a list / set literal directly in argument position of a call
@@ -75,78 +73,89 @@ def key_of(err, path, status):
     return f"{cat}:{err}@{G.key_of(path, 2)}"
 
 
+SLAB = 2500  # contexts per compile round (bounds memory in the thorough tier)
+
+
 def run(chk):
     ctxs, inexpressible, bound = space(chk.tier)
-    # phase 1: the twin of every context
-    twins = [{"id": f"t{ci}", "src": G.program(path, G.TWIN_HOLE), "mode": "check"} for ci, (path, _) in enumerate(ctxs)]
-    tres, retried = G.compile_robust(twins, "c05t")
     twin_fail = {}
-    items, cases = [], []
-    discarded = 0
-    for ci, (path, errs) in enumerate(ctxs):
-        t = tres.get(f"t{ci}")
-        if t is None:
-            chk.machinery(f"no result for twin t{ci}")
-            continue
-        if t["status"] != "ok":
-            why = t["status"] if t["status"] != "err" else "err:" + ",".join(sorted({e["kind"] for e in t.get("errors", [])}))
-            twin_fail[why] = twin_fail.get(why, 0) + 1
-            discarded += len(errs)
-            continue
-        for name, _grp, bad, _good in errs:
-            iid = f"e{ci}_{name.replace('+', 'p').replace('-', 'm')}"
-            src = G.program(path, bad)
-            items.append({"id": iid, "src": src, "mode": "compile"})
-            cases.append((path, name, iid, src))
-    # phase 2: the injected programs of the contexts that are fine by themselves
-    res, retried2 = G.compile_robust(items, "c05")
     outcomes = set()
     samples = []
-    viol_inputs = 0
-    for path, name, iid, src in cases:
-        r = res.get(iid)
-        if r is None:
-            chk.machinery(f"no result for {iid}")
-            continue
-        kinds = tuple(sorted({e["kind"] for e in r.get("errors", [])}))
-        outcomes.add((r["status"], kinds))
-        rejected = r["status"] == "err" and len(r.get("errors", [])) >= 1
-        if len(samples) < 4 and rejected and len(path) >= 2 and name in ("undefined-name", "arity+1", "str-attr", "add-int-str") and all(s["error"] != name for s in samples):
-            samples.append({"context": ">".join(path), "error": name, "src": src, "diagnostics": [e["kind"] for e in r["errors"]]})
-        if rejected:
-            continue
-        viol_inputs += 1
-        if r["status"] == "ok":
-            what = f"program with the definite static error `{name}` in context {'>'.join(path)} is accepted and compiled to a code object"
-        else:
-            what = f"compiler {r['status']} (no diagnostic) on the definite static error `{name}` in context {'>'.join(path)}: {str(r.get('panic') or r.get('stderr'))[:160]}"
-        chk.violation(key_of(name, path, r["status"]), {"path": list(path), "error": name, "src": src, "twin": G.program(path, G.TWIN_HOLE),
-                                           "result": {k: v for k, v in r.items() if k != "warns"}}, what)
-    n = len(cases) + discarded
+    viol_inputs = discarded = retried = n_twins = n_items = n_cases = 0
+    last_cases, last_res = [], {}
+    for lo in range(0, len(ctxs), SLAB):
+        slab = ctxs[lo:lo + SLAB]
+        # phase 1: the twin of every context
+        twins = [{"id": f"t{lo + ci}", "src": G.program(path, G.TWIN_HOLE), "mode": "check"} for ci, (path, _) in enumerate(slab)]
+        tres, r1 = G.compile_robust(twins, "c05t")
+        items, cases = [], []
+        for ci, (path, errs) in enumerate(slab):
+            t = tres.get(f"t{lo + ci}")
+            if t is None:
+                chk.machinery(f"no result for twin t{lo + ci}")
+                continue
+            if t["status"] != "ok":
+                why = t["status"] if t["status"] != "err" else "err:" + ",".join(sorted({e["kind"] for e in t.get("errors", [])}))
+                twin_fail[why] = twin_fail.get(why, 0) + 1
+                discarded += len(errs)
+                continue
+            for name, _grp, bad, _good in errs:
+                iid = f"e{lo + ci}_{name.replace('+', 'p').replace('-', 'm')}"
+                src = G.program(path, bad)
+                items.append({"id": iid, "src": src, "mode": "compile"})
+                cases.append((path, name, iid, src))
+        # phase 2: the injected programs of the contexts that are fine by themselves
+        res, r2 = G.compile_robust(items, "c05")
+        retried += r1 + r2
+        n_twins += len(twins)
+        n_items += len(items)
+        n_cases += len(cases)
+        for path, name, iid, src in cases:
+            r = res.get(iid)
+            if r is None:
+                chk.machinery(f"no result for {iid}")
+                continue
+            kinds = tuple(sorted({e["kind"] for e in r.get("errors", [])}))
+            outcomes.add((r["status"], kinds))
+            rejected = r["status"] == "err" and len(r.get("errors", [])) >= 1
+            if len(samples) < 4 and rejected and len(path) >= 2 and name in ("undefined-name", "arity+1", "str-attr", "add-int-str") and all(s["error"] != name for s in samples):
+                samples.append({"context": ">".join(path), "error": name, "src": src, "diagnostics": [e["kind"] for e in r["errors"]]})
+            if rejected:
+                continue
+            viol_inputs += 1
+            if r["status"] == "ok":
+                what = f"program with the definite static error `{name}` in context {'>'.join(path)} is accepted and compiled to a code object"
+            else:
+                what = f"compiler {r['status']} (no diagnostic) on the definite static error `{name}` in context {'>'.join(path)}: {str(r.get('panic') or r.get('stderr'))[:160]}"
+            chk.violation(key_of(name, path, r["status"]), {"path": list(path), "error": name, "src": src, "twin": G.program(path, G.TWIN_HOLE),
+                                                            "result": {k: v for k, v in r.items() if k != "warns"}}, what)
+        last_cases, last_res = cases, res
+    cases, res = last_cases, last_res
+    n = n_cases + discarded
     chk.coverage.update({
-        "evaluations": len(twins) + len(items),
+        "evaluations": n_twins + n_items,
         "distinct_nontrivial": len(outcomes),
         "rule": "contexts of py/ctxgram.py (34 constructors: statement, variable definition, positional / keyword / `*` argument, left / right / unary operand, list / tuple / set element, "
                 "dict value, `[e; n]` element, comprehension element, record field (inline and bound), attribute receiver, type ascription, if then / else branch, if! branch, "
                 "for! / while! body, inline and named -> / => lambda body, default value of a function / of a lambda, "
                 f"nested function / procedure body, method / procedural method body, match arm) nested to {bound}; an injected program is compiled when the twin of its context "
                 f"(`{G.TWIN_HOLE}` in the hole) is accepted; distinct = distinct (status, set of diagnostic kinds) of the injected programs",
-        "samples": samples or [{"src": cases[0][3]}],
+        "samples": samples or [{"src": G.program(ctxs[0][0], ERRORS[0][2])}],
         "exhaustive": True,
         "bound": bound,
         "contexts": len(ctxs),
         "inexpressible_paths_left_out": inexpressible,
         "context_error_pairs": n,
-        "premise_satisfied": len(cases),
-        "premise_rate": round(len(cases) / max(n, 1), 4),
+        "premise_satisfied": n_cases,
+        "premise_rate": round(n_cases / max(n, 1), 4),
         "contexts_with_accepted_twin": len(ctxs) - sum(twin_fail.values()),
         "twin_rejected_by": twin_fail,
         "violating_inputs": viol_inputs,
         "injected_outcomes": sorted(f"{s}:{'+'.join(k)}" for s, k in outcomes),
-        "recompiled_alone_after_hang_or_abort": retried + retried2,
+        "recompiled_alone_after_hang_or_abort": retried,
     })
-    if len(cases) < 0.4 * n:
-        chk.machinery(f"only {len(cases)}/{n} (context, error) pairs have an accepted twin: vacuous")
+    if n_cases < 0.4 * n:
+        chk.machinery(f"only {n_cases}/{n} (context, error) pairs have an accepted twin: vacuous")
     cli_crosscheck(chk, cases, res)
     chk.assumptions += [
         "rejected = Compiler::compile_module returns Err with >= 1 error (same builder as `erg check`); an Err never reaches code generation, so no code object exists and nothing runs",
